@@ -137,31 +137,53 @@ def unlock_side(R, prog):
     seen = an.SeenTracker([('owner_store', st_owner), ('wake', wake)])
     gt = an.GuardTracker(lambda k: True)
     res = an.run(G, [lt, seen, gt])
-    # the ScopedLockHead variable
-    lh = [nm for nm in K.local_names_init_by(G.root, lambda e, i: e['k'] == 'construct' and strip_targs(e.get('fn') or '') == 'photon::ScopedLockHead::ScopedLockHead')]
-    R.require(len(lh) == 1, 'C01: do_mutex_unlock no longer takes the wait-queue head through ScopedLockHead')
-    h = lh[0]
-    K.check_at(R, P + '.K2', G, res, st_owner,
-               require=lambda st, ev: an.has_lock(st, 'm->splock') and ('LH:' + h) in st,
-               key_fn=lambda ev: P + '.K2:photon::do_mutex_unlock:owner.store',
-               describe=lambda ev: 'owner.store under m->splock with the queue head locked (ScopedLockHead alive)',
-               min_sites=1, what='owner store')
-    # stored value names the head (unless _contending)
+    # the thread that is made the owner: every non-null operand of the stored value
+    f = G.root
+
+    def stored_threads(ev):
+        out = []
+
+        def walk(i):
+            i = f.skip(i)
+            e = f.x(i)
+            if e is None:
+                return
+            if e['k'] == 'cond':
+                walk(e['t'])
+                walk(e['f'])
+                return
+            if e['k'] == 'lit':
+                return
+            p = f.path(i, ev.ctx)
+            out.append(p if p is not None else f.show(i, ev.ctx))
+        if ev.e.get('args'):
+            walk(ev.e['args'][0])
+        return out
+    cands = set()
     for nid, idx, ev in G.events():
         if st_owner(ev):
-            val = ev.arg_show(0) or ''
-            key = P + '.K11:photon::do_mutex_unlock:owner.store(value)'
-            if re.search(r'\b%s\b' % re.escape(h), val):
-                R.held(P + '.K11', key, G.root.id, ev.loc(), 'stored owner value `%s` is the locked head' % val)
-            else:
-                R.violated(P + '.K11', key, G.root.id, ev.loc(), 'stored owner value `%s` does not name the locked head `%s`' % (val, h))
+            cands |= set(stored_threads(ev))
+    R.require(len(cands) >= 1, 'C01: do_mutex_unlock stores no thread into owner (anchor vanished)')
+
+    def new_owner_locked(st, ev):
+        ts = stored_threads(ev)
+        return an.has_lock(st, 'm->splock') and all((('LH:' + t) in st) or an.has_lock(st, t + '->lock') for t in ts)
+    K.check_at(R, P + '.K2', G, res, st_owner, new_owner_locked,
+               key_fn=lambda ev: P + '.K2:photon::do_mutex_unlock:owner.store',
+               describe=lambda ev: 'owner.store under m->splock, and the thread being made owner (%s) is locked at that moment' % stored_threads(ev),
+               min_sites=1, what='owner store')
+    h = sorted(cands)[0]
+    anywake = lambda ev: ev.kind == 'call' and (ev.callee() or '').split('::')[-1] in ('resume_one', 'resume_all', 'thread_interrupt', 'notify_one', 'notify_all')
+    for nid, idx, ev in G.events():
+        if anywake(ev):
+            R.violated(P + '.K8', P + '.K8:photon::do_mutex_unlock:wakes-unidentified-thread', f.id, ev.loc(),
+                       '%s wakes whichever thread is at the head now, not the thread stored into owner' % ev.show()[:60])
     K.check_at(R, P + '.K8', G, res, wake,
-               require=lambda st, ev: 'S:owner_store' in st and an.has_lock(st, 'm->splock') and an.has_lock(st, h + '->lock'),
+               require=lambda st, ev: 'S:owner_store' in st and an.has_lock(st, 'm->splock') and ev.arg_path(0) in cands and an.has_lock(st, ev.arg_path(0) + '->lock'),
                key_fn=lambda ev: P + '.K8:photon::do_mutex_unlock:wake-after-store',
-               describe=lambda ev: 'wake-up after owner.store, under m->splock and the head\'s thread lock',
+               describe=lambda ev: 'the stored owner itself is woken, after owner.store, under m->splock and its thread lock',
                min_sites=1, what='prelocked_thread_interrupt')
-    # must-wake: a non-null head is woken on every path to the exit.  The head's
-    # truthiness is tested right before the call; evaluate at the exit event.
+    # must-wake: a non-null head is woken on every path to the exit.
     K.check_at(R, P + '.K7', G, res, lambda ev: ev.kind == 'exit',
                require=lambda st, ev: ('G:%s=T' % h) not in st or 'S:wake' in st,
                key_fn=lambda ev: P + '.K7:photon::do_mutex_unlock:must-wake',
@@ -207,4 +229,5 @@ def run(R, prog, tier):
     R.guard(recursive, R, prog)
     R.guard(unlock_side, R, prog)
     R.guard(C.thread_lock_contracts, R, prog, P)
+    R.guard(C.reason_not_overwritten, R, prog, P)
     R.guard(C.no_yield_under_spinlock, R, prog, P, files=('thread/thread.cpp', 'thread/thread.h'))
